@@ -119,6 +119,25 @@ def run_unit(name, keep_smt2=2):
             obs.extend(u.post(paths) or [])
         except Exception as e:
             res.status, res.message = "crash", "".join(traceback.format_exception(type(e), e, e.__traceback__))[-4000:]
+    # vacuity guard (thorough tier): the final path condition of every path with quantified assumptions must have a model
+    # in some finite scope - a contradictory precondition / invariant / lemma instance would make every obligation trivial
+    import os as _os
+
+    if _os.environ.get("UJVC_TIER") == "thorough" and res.status == "ok":
+        covered = 0
+        for p in paths:
+            if p.end == "infeasible" or not p.obligations or covered >= 40:
+                continue
+            last = p.obligations[-1]
+            pc = list(last.pc) + ([] if isinstance(last.goal, bool) else [last.goal])
+            if not any(core._has_quantifier(f) for f in pc if not isinstance(f, bool)):
+                continue
+            covered += 1
+            v, m, k = core.refute_finite(pc, core.z3.BoolVal(False), kmax=6)
+            ob = core.Obligation(name=f"{name}/cover:path-condition-satisfiable-in-a-finite-scope", pc=[], goal=bool(v == "refuted"), props=tuple(u.props),
+                                 path=tuple(p.labels), info=f"finite-scope model search: {v} (K={k})")
+            ob.backend = "z3-finite-scope"
+            obs.append(ob)
     kept = 0
     for ob in obs:
         want = kept < keep_smt2 and not isinstance(ob.goal, bool)
